@@ -75,3 +75,29 @@ def collect_formulas(paths, workers=16):
             elif f is not None:
                 texts.append(f)
     return texts, errors
+
+
+def iwa_members(path):
+    """All IWA members of a document (zip file, package folder with Index/ or with Index.zip): list of (name, bytes)."""
+    import io
+    import zipfile
+    out = []
+
+    def from_zip(zf, prefix=""):
+        for n in zf.namelist():
+            if n.endswith(".iwa"):
+                out.append((prefix + n, zf.read(n)))
+            elif n.endswith("Index.zip"):
+                from_zip(zipfile.ZipFile(io.BytesIO(zf.read(n))), prefix + n + "!")
+    if os.path.isdir(path):
+        for root, _, files in os.walk(path):
+            for f in sorted(files):
+                p = os.path.join(root, f)
+                if f.endswith(".iwa"):
+                    with open(p, "rb") as fh:
+                        out.append((os.path.relpath(p, path), fh.read()))
+                elif f == "Index.zip":
+                    from_zip(zipfile.ZipFile(p), "Index.zip!")
+    else:
+        from_zip(zipfile.ZipFile(path))
+    return out
